@@ -314,15 +314,20 @@ def check_C04(res, ctx):
 def check_C13(res, ctx):
     from . import crashcheck
     n = 24 if ctx.quick else 400
-    for i in range(n):
+
+    def job(i):
         rng = rng_for(ctx.seed, "C13", i)
         sync = [0, 1, 2, 2][i % 4]
+        # memory-mapped runs read 512 MiB of zero pages at every restart: fewer of them in the thorough tier
+        io = 1 if (i % 6 == 5 if ctx.quick else i % 20 == 5) else 0
         cfg = {"fs": rng.choice([4096, 20000, 65536]), "sync": sync, "bps": rng.choice([1, 100, 4096, 1 << 20]) if sync == 2 else 0,
-               "idx": rng.choice([1, 2, 3]), "io": 1 if i % 6 == 5 else 0, "shards": 16}
+               "idx": rng.choice([1, 2, 3]), "io": io, "shards": 16}
         g = engine.Gen(rng, cfg, nkeys=5, weights={"reopen": 2, "merge": 1, "keys": 0, "fold": 0, "dump": 0, "stat": 0, "getabsent": 0,
                                                    "emptykey": 0, "get": 1, "sync": 5, "batch": 12}, max_val=rng.choice([200, 5000, 40000]))
         ops = [o for o in g.history(30 if ctx.quick else 60) if o.split()[0] not in ("dump", "stat", "files")]
         recs, err, rc = crashcheck.run_crash(ctx, ops, mode="points", cuts="none", dumpfiles=False)
+        return i, sync, cfg, ops, recs, err, rc
+    for i, sync, cfg, ops, recs, err, rc in core.parallel_map(job, list(range(n)), workers=8):
         if rc != 0:
             res.violation("C13 run %d died: %s" % (i, err[-300:]), {"ops": ops})
             continue
